@@ -57,7 +57,7 @@ def harnesses(tier):
                               "current/previous index and all arguments symbolic; pre-state constrained only by the "
                               "invariant" % (v[1:], order),
                               fns + ["yash_env::job::JobList::current_job", "yash_env::job::JobList::previous_job"],
-                              "invariant preserved; " + clause, timeout=1500, mem_gb=12, mod=M, cover_group="c12_" + op,
+                              "invariant preserved; " + clause, timeout=1500, mem_gb=16, mod=M, cover_group="c12_" + op,
                               stubs=(["JobList::remove -> its contract (discharged by c12_remove_*), current/previous job "
                                       "havocked under the invariant"] if op == "extract_if" else [])))
     hs.append(Harness("c12_base", "empty table", ["yash_env::job::JobList::new"], "base case of the induction",
@@ -79,7 +79,7 @@ def run(tier, seed, only=None):
         w = core.Workspace("c12")
         sess = setup(w, tier=tier)
         hs = [h for h in harnesses(tier) if not only or h.name in only]
-        res = sess.run_all(hs, jobs=12)
+        res = sess.run_all(hs, jobs=10)
         out.extra.update({"kani_build_s": round(sess.build_s, 1), "repo_state": w.repo_state,
                           "injected": w.injected, "transforms": w.transforms})
         out.add_kani_results(res, sess, core.load_known(PID), PID)
